@@ -51,18 +51,18 @@ type c13Tag struct {
 }
 
 type c13Metric struct {
-	Name string     `json:"name"`
-	Tags []c13Tag   `json:"tags,omitempty"`
-	HasC bool       `json:"has_c,omitempty"`
-	C    vpF        `json:"c,omitempty"`
-	HasT bool       `json:"has_t,omitempty"`
-	T    uint32     `json:"t,omitempty"`
-	HasV bool       `json:"has_v,omitempty"`
-	V    []vpF      `json:"v,omitempty"`
-	HasU bool       `json:"has_u,omitempty"`
-	U    []int64    `json:"u,omitempty"`
-	HasH bool       `json:"has_h,omitempty"`
-	H    [][2]vpF   `json:"h,omitempty"`
+	Name string      `json:"name"`
+	Tags []c13Tag    `json:"tags,omitempty"`
+	HasC bool        `json:"has_c,omitempty"`
+	C    vpF         `json:"c,omitempty"`
+	HasT bool        `json:"has_t,omitempty"`
+	T    uint32      `json:"t,omitempty"`
+	HasV bool        `json:"has_v,omitempty"`
+	V    []vpF       `json:"v,omitempty"`
+	HasU bool        `json:"has_u,omitempty"`
+	U    []int64     `json:"u,omitempty"`
+	HasH bool        `json:"has_h,omitempty"`
+	H    [][2]vpF    `json:"h,omitempty"`
 	raw  [][2][]byte // tags as raw bytes (models derived from decoder output only; never serialised)
 	rawN []byte
 }
@@ -998,6 +998,9 @@ type c13Rec struct {
 
 func (r *c13Rec) HandleMetrics(args data_model.HandlerArgs) {
 	m := args.MetricBytes
+	if len(r.metrics) > 1<<20 {
+		panic("more than 2^20 metrics delivered from one packet of at most 64 KiB: runaway decoder loop")
+	}
 	r.metrics = append(r.metrics, c13NormOf(m))
 	r.models = append(r.models, c13ModelOf(m))
 	switch {
@@ -1108,8 +1111,12 @@ func c13PropXformat(t vpT, b c13Batch) (nontrivial bool, classes []string) {
 			continue
 		}
 		pkt := c13Encode(&b, f)
-		rec, err := dec.run(pkt)
 		what := "format " + c13FmtNames[f]
+		// crash / hang canary first: a decoder that dies or spins must fail this case, not the whole run
+		if _, _, problem := c13Canary(pkt); problem != "" {
+			t.Fatalf("%s: %s\npacket %x", what, problem, pkt)
+		}
+		rec, err := dec.run(pkt)
 		if err != nil || len(rec.perr) != 0 {
 			t.Fatalf("%s: valid packet rejected: err=%v parseErrors=%d\npacket %x", what, err, len(rec.perr), pkt)
 		}
@@ -1607,7 +1614,7 @@ type c13Count struct {
 }
 
 func (c *c13Count) HandleMetrics(args data_model.HandlerArgs) { c.n++ }
-func (c *c13Count) HandleParseError(pkt []byte, err error)     { c.e++ }
+func (c *c13Count) HandleParseError(pkt []byte, err error)    { c.e++ }
 
 // TestVerifC13Child is the canary: it only decodes what the parent sends. Not a check by itself.
 func TestVerifC13Child(t *testing.T) {
@@ -1942,7 +1949,6 @@ func FuzzVerifC13Protobuf(f *testing.F) {
 		c13FuzzOne(t, data)
 	})
 }
-
 
 // TestVerifC13WriteCorpus regenerates the committed seed corpus (/verif/corpus/C13/<FuzzName>/) from the harness
 // encoders; it only runs when VERIF_C13_WRITE_CORPUS names the target directory (never part of a check run).
